@@ -501,7 +501,33 @@ fn const_value<'tcx>(cx: &Cx<'tcx>, v: ConstValue, ty: Ty<'tcx>) -> J {
                     let b = if off <= b.len() { &b[off..] } else { &b[..] };
                     J::Obj(vec![("raw".into(), bytes_json(b))])
                 }
-                None => J::Obj(vec![("indirect".into(), J::Str("ptrs".into()))]),
+                None => {
+                    // fat pointer constant (&[u8] / &str stored indirectly): (ptr, len)
+                    let inner = a.inner();
+                    let ptrs = inner.provenance().ptrs();
+                    let off = offset.bytes() as usize;
+                    let mut res = J::Obj(vec![("indirect".into(), J::Str("ptrs".into()))]);
+                    if ptrs.len() == 1 && inner.len() >= off + 16 {
+                        let (_o, prov) = ptrs.iter().next().map(|(o, p)| (*o, *p)).unwrap();
+                        let raw = inner.inspect_with_uninit_and_ptr_outside_interpreter(off + 8..off + 16);
+                        let mut lb = [0u8; 8];
+                        lb.copy_from_slice(raw);
+                        let ln = u64::from_le_bytes(lb) as usize;
+                        if let Some(GlobalAlloc::Memory(n)) = tcx.try_get_global_alloc(prov.alloc_id()) {
+                            if let Some(b) = alloc_bytes(n.inner()) {
+                                if ln <= b.len() {
+                                    let is_str = matches!(ty.kind(), ty::Ref(_, t, _) if t.is_str());
+                                    res = if is_str {
+                                        J::Obj(vec![("str".into(), J::Str(String::from_utf8_lossy(&b[..ln]).to_string()))])
+                                    } else {
+                                        J::Obj(vec![("bytes".into(), bytes_json(&b[..ln]))])
+                                    };
+                                }
+                            }
+                        }
+                    }
+                    res
+                }
             },
             _ => J::Obj(vec![("indirect".into(), J::Str("?".into()))]),
         },
